@@ -54,6 +54,9 @@ func (Engine) Generate(r *simcore.RNG, tier string, idx int) *simcore.Plan {
 	p.Config["allow0"] = int64(r.Intn(2)) // owner 0 on the force-unlock allow-list
 	p.Config["jitter"] = int64(r.Intn(2)) // header times with a varying sub-millisecond part
 	faults := idx%2 == 1
+	if idx%4 == 3 {
+		p.Config["spec"] = 60 + int64(idx/4%5)*60 // permille of blocks first executed speculatively on a discarded branch (simchain.Node.Spec)
+	}
 	n := int(r.Range(15, 60))
 	for i := 0; i < n; i++ {
 		st := simcore.Step{}
@@ -162,6 +165,12 @@ func (Engine) Execute(run *simcore.Run) {
 			gs[lockuptypes.ModuleName] = cdc.MustMarshalJSON(&lg)
 		}
 	}})
+	n.Spec = run.Plan.Cfg("spec", 0)
+	defer func() {
+		for i := 0; i < n.Specs; i++ {
+			run.Fault("speculative-block-discarded")
+		}
+	}()
 	n.Jitter = p.Cfg("jitter", 0) == 1
 	w := &world{run: run, n: n, owners: owners, locks: map[uint64]*refLock{}, allow0: allow0}
 	w.q = lockupkeeper.NewQuerier(*n.App.LockupKeeper)
